@@ -507,6 +507,10 @@ def construct(E, cls, args, kw, st, out, node):
 def super_call(E, cname, self_, m, args, st, out, node):
     base = E.class_info(cname).get("builtin_base")
     r = self_.t
+    for b in E.class_info(cname).get("bases", []):
+        q = E.find_method(b, m)
+        if q is not None:
+            return E.call_function(q, [self_] + list(args), {}, st, out, node)
     if m == "__init__":
         return [(st, VNone())]
     if m == "__setattr__":
@@ -534,7 +538,9 @@ def super_call(E, cname, self_, m, args, st, out, node):
     if m == "insert":
         i = args[0].t
         idx = z3.If(i < 0, z3.If(n0 + i < 0, 0, n0 + i), z3.If(i > n0, n0, i))
-        new = z3.Lambda([k], z3.If(k < idx, z3.Select(items, k), z3.If(k == idx, args[1].t, z3.Select(items, k - 1))))
+        new = z3.Const(fresh_name("items_ins"), items.sort())
+        st.assume(z3.ForAll([k], z3.Select(new, k) == z3.If(k < idx, z3.Select(items, k), z3.If(k == idx, args[1].t, z3.Select(items, k - 1))),
+                            patterns=[z3.Select(new, k)]))
         E.set_seq(st, r, n0 + 1, new)
         return [(st, VNone())]
     if m in ("__getitem__", "__delitem__", "__setitem__", "pop"):
@@ -559,7 +565,9 @@ def super_call(E, cname, self_, m, args, st, out, node):
             return res + [(st1, VNone())]
         ety = E.class_info(cname)["seq"]
         old = VRef(z3.Select(items, idx), ety)
-        new = z3.Lambda([k], z3.If(k < idx, z3.Select(items, k), z3.Select(items, k + 1)))
+        new = z3.Const(fresh_name("items_del"), items.sort())
+        st1.assume(z3.ForAll([k], z3.Select(new, k) == z3.If(k < idx, z3.Select(items, k), z3.Select(items, k + 1)),
+                             patterns=[z3.Select(new, k)]))
         E.set_seq(st1, r, n0 - 1, new)
         return res + [(st1, old if m == "pop" else VNone())]
     raise OutOfSubset("list.%s" % m)
